@@ -18,4 +18,14 @@ for d in seeded/*/; do
   rm -f replays/$id/viol-*
   git -C /repo checkout -- . 2>/dev/null
 done
-mv $out seeded/RESULTS.md
+# merge: rows of seeds not swept this time are kept from the previous table
+python3 - "$out" <<'PY'
+import sys
+new=[l for l in open(sys.argv[1]) if l.startswith('| ') and not l.startswith('| seeded') and not l.startswith('|---')]
+names=set(l.split('|')[1].strip() for l in new)
+try: old=[l for l in open('/verif/seeded/RESULTS.md') if l.startswith('| ') and not l.startswith('| seeded') and not l.startswith('|---') and l.split('|')[1].strip() not in names]
+except FileNotFoundError: old=[]
+rows=sorted(old+new, key=lambda l: l.split('|')[1].strip())
+open('/verif/seeded/RESULTS.md','w').write("| seeded change | check | result | signatures |\n|---|---|---|---|\n"+"".join(rows))
+PY
+rm -f $out
